@@ -285,7 +285,11 @@ func Generate(r *rng.R, tier string, n int, emit func(*common.Case)) {
 		case k < 13:
 			in = genMode(cr)
 		case k < 16:
-			in = genList(cr)
+			if k == 15 && (i/20)%2 == 0 { // round 6: wildcard src= below the build root (r6_srcwild.go)
+				in = genListSrcWild(cr)
+			} else {
+				in = genList(cr)
+			}
 		case k < 17:
 			if (i/20)%4 == 1 { // round 5: the script named by a recipe line, white space inside the path
 				in = genProcViaRecipe(cr)
